@@ -1,15 +1,17 @@
 #!/bin/bash
 # usage: seed_confirm.sh <ID> : confirms a sub-agent's seeded change in its scratch worktree /tmp/mut/<ID>
+# (no git stash: the stash is shared by all worktrees of /repo; the tree is set from patch.diff instead)
 ID=$1; WT=/tmp/mut/$ID; export CARGO_TARGET_DIR=$WT/target CARGO_NET_OFFLINE=true
 cd $WT || exit 2
 LOG=$WT/confirm.log; : > $LOG
+git checkout -q -- src && git apply patch.diff || { echo "patch.diff does not apply to a clean tree" >> $LOG; cat $LOG; exit 2; }
 echo "== with change: cargo test (single-threaded, the suite shares a port counter)" >> $LOG
 cargo test --offline -- --test-threads=1 2>&1 | grep -E "^test result|FAILED|failed" >> $LOG
 cargo build --offline >/dev/null 2>&1
 python3 demo.py >$WT/demo_with.out 2>&1; echo "demo with change: exit $?" >> $LOG
-git stash -q -- src
+git checkout -q -- src
 cargo build --offline >/dev/null 2>&1
 python3 demo.py >$WT/demo_without.out 2>&1; echo "demo without change: exit $?" >> $LOG
-git stash pop -q
+git apply patch.diff
 git diff -- src > $WT/patch.confirmed.diff
 cat $LOG
